@@ -1,4 +1,5 @@
 """C17 - write, read and exists behave as a line store over the file system."""
+import corpus
 import progflow
 
 RULE = ("direction A: TLC enumerates spec/FamC17.tla: all histories of one and two operations (three over a reduced alphabet) from write / append (flag literal, "
@@ -13,5 +14,6 @@ def run(ctx):
     fam = ctx.tlc_family("FamC17", constants={"Tier": '"%s"' % ctx.tier}, timeout=3000)
     ctx.exhaustive["FamC17"] = True
     failures = progflow.judge(ctx, fam, "fam")
+    failures += corpus.judge(ctx, "C17")
     progflow.report(ctx, failures)
     return ctx.finish(rule=RULE, assumptions=ASSUME)
